@@ -78,8 +78,8 @@ AmpSuffix(path) ==
   IN IF EndsWith(lo, dotamp \o <<46, 104, 116, 109, 108>>) THEN SubSeq(path, 1, n - 9) \o SubSeq(path, n - 4, n)
      ELSE IF EndsWith(lo, dotamp \o <<47>>) THEN SubSeq(path, 1, n - 5)
      ELSE IF EndsWith(lo, dotamp) THEN SubSeq(path, 1, n - 4)
-     ELSE IF EndsWith(lo, <<47, 97, 109, 112, 47>>) THEN SubSeq(path, 1, n - 4)
-     ELSE IF EndsWith(lo, <<47, 97, 109, 112>>) THEN SubSeq(path, 1, n - 3)
+     ELSE IF EndsWith(lo, <<47, 97, 109, 112, 47>>) THEN SubSeq(path, 1, n - 5)        \* '/amp/' and '/amp' go with their slash
+     ELSE IF EndsWith(lo, <<47, 97, 109, 112>>) THEN SubSeq(path, 1, n - 4)
      ELSE path
 \* os.path.splitext of the last segment: name before the last '.', a leading '.' does not count
 StemOf(seg) == LET k == LastPos(seg, 46)
